@@ -146,4 +146,17 @@ example : commandHistory dirty [⟨noConv, fooFmt, some false, true, ["y".toList
     = [parse noConv fooFmt false ["y".toList, "z".toList], parse noConv fooFmt true ["y".toList, "z".toList]] :=
   command_history_independent _ _
 
+/-! ## Non-vacuity of the theorems added in rounds 8-9 (hypothesis audit) -/
+
+section AuditR9
+open Clikit Clikit.Parser
+
+/-- `command_parse_config_irrelevant` applied: the same strict request to a command configured lenient (parser object
+`dirty`) and to one configured strict (fresh parser object) -/
+example : (commandParse dirty ⟨noConv, fooFmt, some false, true, ["y".toList, "z".toList]⟩).1
+    = (commandParse St.empty ⟨noConv, fooFmt, some false, false, ["y".toList, "z".toList]⟩).1 :=
+  command_parse_config_irrelevant _ _ _ _ false rfl rfl rfl rfl rfl
+
+end AuditR9
+
 end Clikit.Props.C05
